@@ -252,7 +252,7 @@ pub fn order_lemma<N: Nd>(nd: &mut N, mask: u16, last: u8) {
 /// Expected message: (number, value, registered, kind) on the channel of the call.
 pub type E = Option<(u16, u16, bool, u8)>;
 
-fn number_of(num: &Num) -> Option<(u16, bool)> {
+pub fn number_of(num: &Num) -> Option<(u16, bool)> {
     match *num {
         Num::Complete { msb, lsb, reg } => Some((o::join14(msb, lsb), reg)),
         _ => None,
@@ -420,11 +420,11 @@ pub fn spec_poll(x: &mut ChObs, now: T, timeout: T) -> E {
 }
 
 /// Is (state, controller) one of the two malformed corners the properties leave open?
-fn open_corner(x: &ChObs, d1: u8) -> bool {
+pub fn open_corner(x: &ChObs, d1: u8) -> bool {
     matches!(x.val, Val::Pending { is_msb: false, .. }) && (d1 == 38 || d1 == 96 || d1 == 97)
 }
 
-fn same(out: &Option<Pnm>, ch: u8, e: E) -> bool {
+pub fn same(out: &Option<Pnm>, ch: u8, e: E) -> bool {
     match (out, e) {
         (None, None) => true,
         (Some(m), Some((n, v, r, k))) => *m == build(ch, n, v, r, k),
@@ -433,7 +433,7 @@ fn same(out: &Option<Pnm>, ch: u8, e: E) -> bool {
 }
 
 /// C14 clauses stated on (pre-observer, event, real outputs), independently of `spec_feed`.
-fn c14_clauses(pre: &ChObs, ch: u8, d1: Option<u8>, d2: u8, out: &[Option<Pnm>; 2], poll_expired: bool) {
+pub fn c14_clauses(pre: &ChObs, ch: u8, d1: Option<u8>, d2: u8, out: &[Option<Pnm>; 2], poll_expired: bool) {
     let nr = number_of(&pre.num);
     let pending_msb = match pre.val {
         Val::Pending {
@@ -514,29 +514,61 @@ pub fn step_feed<N: Nd>(nd: &mut N, mask: u16, ch: u8) {
     let mut s = gen_on(&base, ch, &a.ch[ch as usize]);
     let d1 = nd.u8_le(127);
     let d2 = nd.u8_le(127);
+    // look-ahead instant for the polls after the step (see below)
+    let t2 = any_t(nd);
+    nd.assume(now.le(t2));
+    #[cfg(not(kani))]
+    nd.capture(crate::attrib::Ctx::Poll {
+        s,
+        a,
+        timeout,
+        ch,
+        events: vec![(ch, Some((d1, d2)), now), (ch, None, t2), (ch ^ 1, None, t2)],
+    });
     set_now(now.dur());
     let out = s.feed(&cc(ch, d1, d2));
     check_msg_range(&out[0]);
     check_msg_range(&out[1]);
     let pre = a.ch[ch as usize];
-    c14_clauses(&pre, ch, Some(d1), d2, &out, false);
     let e = spec_feed(&mut a.ch[ch as usize], d1, d2, now);
+    let post_obs = a.ch[ch as usize];
     // one comparison of whole scanners only (derived PartialEq over 16 channels is the costly part)
-    let post_ok = s == gen_on(&base, ch, &a.ch[ch as usize]);
+    let post_ok = s == gen_on(&base, ch, &post_obs);
     let out_ok0 = same(&out[0], ch, e[0]);
     let out_ok1 = same(&out[1], ch, e[1]);
+    let corner = open_corner(&pre, d1);
+    // Look-ahead inside the solver: a poll of the step channel and of its neighbour at any later
+    // instant must answer what the observer prescribes. This makes the solver look for instances
+    // in which a deviation of the post-state is *behaviourally visible* (e.g. a stale arrival time
+    // only shows for timeouts that can actually expire). Evaluated here, asserted below in an order
+    // that puts the behaviourally visible deviations first (Kani assumes an assertion after
+    // checking it, so an earlier failing assertion hides the later ones for the same input).
+    set_now(t2.dur());
+    let o2 = s.poll(chv(ch));
+    let e2 = spec_poll(&mut a.ch[ch as usize], t2, timeout);
+    let look_ok2 = same(&o2, ch, e2);
+    let o3 = s.poll(chv(ch ^ 1));
+    let e3 = spec_poll(&mut a.ch[(ch ^ 1) as usize], t2, timeout);
+    let look_ok3 = same(&o3, ch ^ 1, e3);
+    // 1. clauses of C14 on the real outputs, independent of the observer's transition function
+    c14_clauses(&pre, ch, Some(d1), d2, &out, false);
+    // 2. non-contributing controllers (C16)
     if !o::is_pn_controller(d1) {
-        check!(out[0].is_none() && out[1].is_none(), "C16 controller outside {6,38,96-101} reports nothing");
+        check!(out[0].is_none() && out[1].is_none(), "C16 controller outside 6, 38, 96-101 reports nothing");
         // the observer does not move, so the expected post-state is the pre-state
-        check!(a.ch[ch as usize] == pre && post_ok, "C16 controller outside {6,38,96-101} leaves the scanner in an equal state");
+        check!(post_obs == pre && post_ok, "C16 controller outside 6, 38, 96-101 leaves the scanner in an equal state");
     }
-    if open_corner(&pre, d1) {
-        check!(out_ok0 && out_ok1 && post_ok, "harness: behaviour changed in a corner (LSB followed by LSB or inc/dec) that C12-C14 leave open; the observer must be updated");
+    // 3. conformance with the observer: outputs, look-ahead, post-state
+    if corner {
+        check!(out_ok0 && out_ok1 && post_ok && look_ok2 && look_ok3, "harness: behaviour changed in a corner (LSB followed by LSB or inc/dec) that C12-C14 leave open; the observer must be updated");
     } else {
-        check!(out_ok0, "C12 C14 first reported message is exactly the intended one");
-        check!(out_ok1, "C12 C14 second reported message is exactly the intended one");
-        check!(post_ok, "C12 C13 C14 C15 post-state is the state of the advanced observer (only the addressed channel changes, arrival stamped with the current time)");
+        check!(out_ok0, "C12 C13 C14 C15 [conformance] first reported message is exactly the intended one");
+        check!(out_ok1, "C12 C13 C14 C15 [conformance] second reported message is exactly the intended one");
+        check!(look_ok2, "C12 C13 C14 C15 [conformance] a later poll of the step channel answers what the observer prescribes");
+        check!(look_ok3, "C12 C13 C14 C15 [conformance] a later poll of the neighbour channel answers what the observer prescribes");
+        check!(post_ok, "C12 C13 C14 C15 C16 [conformance] post-state is the state of the advanced observer (only the addressed channel changes, arrival stamped with the current time)");
     }
+    witness!(nd, o2.is_some(), "look-ahead poll reports");
     witness!(nd, out[1].is_some(), "two messages");
     witness!(nd, out[0].map_or(false, |m| m.is_14_bit()), "14-bit report");
     witness!(nd, out[0].is_some() && d1 >= 98, "flush by a number byte");
@@ -551,6 +583,18 @@ pub fn step_poll<N: Nd>(nd: &mut N, mask: u16, ch: u8) {
     nd.assume(valid_at(&a, now));
     let base = gen_except(&a, timeout, ch);
     let mut s = gen_on(&base, ch, &a.ch[ch as usize]);
+    // look-ahead instants (non-decreasing): a second poll of the channel, a poll of its neighbour
+    let later = any_t(nd);
+    let t2 = any_t(nd);
+    nd.assume(now.le(later) && later.le(t2));
+    #[cfg(not(kani))]
+    nd.capture(crate::attrib::Ctx::Poll {
+        s,
+        a,
+        timeout,
+        ch,
+        events: vec![(ch, None, now), (ch, None, later), (ch ^ 1, None, t2)],
+    });
     set_now(now.dur());
     let out = s.poll(chv(ch));
     check_msg_range(&out);
@@ -565,26 +609,32 @@ pub fn step_poll<N: Nd>(nd: &mut N, mask: u16, ch: u8) {
         check!(exp, "C13 poll returns a message only if at least the timeout has passed since the MSB was fed");
     }
     let e = spec_poll(&mut a.ch[ch as usize], now, timeout);
-    let post_ok = s == gen_on(&base, ch, &a.ch[ch as usize]);
+    let post_obs = a.ch[ch as usize];
+    let post_ok = s == gen_on(&base, ch, &post_obs);
+    // look-ahead inside the solver (evaluated here, asserted below): a second poll of the same
+    // channel at any later time, and a later poll of the neighbour channel
+    set_now(later.dur());
+    let again = s.poll(chv(ch));
+    set_now(t2.dur());
+    let o3 = s.poll(chv(ch ^ 1));
+    let e3 = spec_poll(&mut a.ch[(ch ^ 1) as usize], t2, timeout);
+    let look_ok3 = same(&o3, ch ^ 1, e3);
     if !exp {
         check!(out.is_none(), "C13 a poll before the timeout returns nothing");
         // the observer does not move, so the expected post-state is the pre-state
-        check!(a.ch[ch as usize] == pre && post_ok, "C13 a poll before the timeout has no effect");
+        check!(post_obs == pre && post_ok, "C13 a poll before the timeout has no effect");
     }
     if let Some((false, _, _)) = pend {
         check!(out.is_none(), "C13 an unpaired data entry LSB is never reported");
     }
     c14_clauses(&pre, ch, None, 0, &[out, None], exp);
-    check!(same(&out, ch, e), "C13 C12 poll returns exactly the pending 7-bit message once the timeout has passed");
-    check!(post_ok, "C13 C15 post-state of poll is the state of the advanced observer (pending value consumed exactly when the timeout has passed)");
+    check!(same(&out, ch, e), "C13 C12 C14 C15 [conformance] poll returns exactly the pending 7-bit message once the timeout has passed");
     if exp {
         // consumed: a further poll (at any later time) returns nothing until new input arrives
-        let later = any_t(nd);
-        nd.assume(now.le(later));
-        set_now(later.dur());
-        let again = s.poll(chv(ch));
         check!(again.is_none(), "C13 further polls return nothing until new input arrives");
     }
+    check!(look_ok3, "C13 C12 C14 C15 [conformance] a later poll of the neighbour channel answers what the observer prescribes");
+    check!(post_ok, "C13 C12 C14 C15 [conformance] post-state of poll is the state of the advanced observer (pending value consumed exactly when the timeout has passed)");
     witness!(nd, out.is_some(), "poll reported");
     witness!(nd, pend.map_or(false, |(m, _, _)| m) && !exp, "pending MSB, timeout not reached");
     witness!(nd, pend.map_or(false, |(m, _, _)| !m) && exp, "pending LSB dropped");
@@ -944,7 +994,7 @@ pub fn literal<N: Nd>(nd: &mut N, c1: u8, c2: u8) {
         } else if which == 8 {
             let out = s.poll(chv(c));
             let e = spec_poll(&mut a.ch[c as usize], now, timeout);
-            check!(same(&out, c, e), "C12 C13 C14 C15 C17 literal history: poll output equals the observer's");
+            check!(same(&out, c, e), "C12 C13 literal history: poll output equals the observer's");
             if out.is_some() {
                 reported += 1;
             }
@@ -961,7 +1011,7 @@ pub fn literal<N: Nd>(nd: &mut N, c1: u8, c2: u8) {
                 _ => s.feed(&scc(c, 97, d2)),
             };
             let e = spec_feed(&mut a.ch[c as usize], pn_controller(which), d2, now);
-            check!(same(&out[0], c, e[0]) && same(&out[1], c, e[1]), "C12 C13 C14 C15 C17 literal history: feed output equals the observer's");
+            check!(same(&out[0], c, e[0]) && same(&out[1], c, e[1]), "C12 literal history: feed output equals the observer's");
             if out[0].is_some() {
                 reported += 1;
             }
